@@ -250,7 +250,8 @@ impl Monitor for C11 {
                     let pools: Vec<Pubkey> = ["whirlpool", "whirlpool_one", "whirlpool_two"].iter().filter_map(|n| c.acct(n)).collect();
                     for wk in pools {
                         if let Some(p) = ev.pre.data(&wk).and_then(decode::pool) {
-                            let behind = ts >= 0 && (ts as u64) < p.reward_last_updated_timestamp;
+                            // (a clock that reads a negative time is earlier than every stored update)
+                            let behind = ts < 0 || (ts as u64) < p.reward_last_updated_timestamp;
                             if behind {
                                 cov.probe("operation_with_earlier_timestamp");
                                 cov.eval(format!("{}|earlier_timestamp|ok={}", c.name(), ev.out.ok));
